@@ -567,6 +567,14 @@ func checkMain(args []string) int {
 		fmt.Printf("KNOWN-FINDING: property=%s %s %s\n", id, k, known[k].What)
 	}
 	os.MkdirAll(filepath.Join(verifDir, "evidence", "witness"), 0o755)
+	if onlyFilter == "" {
+		// the witness directory shows the last complete run of this property only
+		if old, _ := filepath.Glob(filepath.Join(verifDir, "evidence", "witness", id+"-*.json")); old != nil {
+			for _, f := range old {
+				os.Remove(f)
+			}
+		}
+	}
 	var vpaths []string
 	vseen := map[string]bool{}
 	for _, w := range violations {
